@@ -14,6 +14,7 @@ case "${1:-}" in
     sed "s#@REPO@#$REPO#" harness/Cargo.toml.in > harness/Cargo.toml
     [ -f harness/Cargo.lock ] || cp "$REPO/Cargo.lock" harness/Cargo.lock
     (cd harness && cargo build --release --offline)
+    (cd harness && CARGO_TARGET_DIR=target-feat cargo build --release --offline --features deadlock,metrics,testutils)
     ;;
   quick|thorough)
     exec python3 tools/check.py "$1" "$2"
